@@ -13,6 +13,9 @@ use std::collections::{BTreeMap, BTreeSet};
 
 type V = Option<(String, String, String)>;
 
+/// how often information_content() answered Err for a set with an empty union / an empty kind (tolerated)
+static IC_ERR_TOLERATED: std::sync::atomic::AtomicU64 = std::sync::atomic::AtomicU64::new(0);
+
 fn set_of<'a>(ont: &'a Ontology, ids: &[u32]) -> HpoSet<'a> {
     let mut g = HpoGroup::new();
     for i in ids {
@@ -125,14 +128,19 @@ fn check_aggregates(pre: &Pre, set: &HpoSet, xs: &BTreeSet<u32>, who: &str) -> V
                 } else if unions[k].is_empty() {
                     got == 0.0 || got == f32::INFINITY
                 } else {
-                    crate::obs::close32(got, ic_value(totals[k], unions[k].len()))
+                    // N is known: within 2 ulp(ln N) + 4 ulp(value) of -ln(|union|/N), and exactly 0 for |union| == N
+                    // (n/N == 1 and ln N - ln N == 0 in every evaluation; a floor such as max(EPSILON) is a difference)
+                    crate::obs::close_ic(got, ic_value(totals[k], unions[k].len()), totals[k])
                 };
                 if !ok {
                     return v("HpoSet::information_content", "not -ln(|union|/N)", format!("set {x:?}: {name} {got} expected -ln({}/{})", unions[k].len(), totals[k]));
                 }
             }
         }
-        Err(_) if open(0) || open(1) => {}
+        Err(_) if open(0) || open(1) => {
+            // tolerated, but counted (one process per worker: a static is a per-worker counter; run() books it)
+            IC_ERR_TOLERATED.fetch_add(1, std::sync::atomic::Ordering::Relaxed);
+        }
         Err(e) => return v("HpoSet::information_content", "returns an error", format!("set {x:?}: {e}")),
     }
     None
@@ -292,7 +300,7 @@ pub fn run(ctx: &mut Ctx) {
             // two terms that name each other as replacement are a cycle: a decoder that refuses such a file is
             // within its rights (the quantifier speaks of replaced terms, not of replacement cycles)
             Ok(Err(_)) if what.contains("naming each other as replacement") => {
-                ctx.bump("mutual_replacement_file_refused", 1);
+                ctx.bump("refused: file with two terms naming each other as replacement (family-E/all-subsets)", 1);
                 continue;
             }
             other => {
@@ -301,8 +309,11 @@ pub fn run(ctx: &mut Ctx) {
             }
         }
         if !has_flag {
-            if let Ok(o) = drive::build(f, Mode::Defaults) {
-                onts.push((o, "builder"));
+            // valid facts (no flags, distinct ids): a Builder that fails or panics on them must not make the
+            // Builder half of this space vanish silently
+            match drive::build(f, Mode::Defaults) {
+                Ok(o) => onts.push((o, "builder")),
+                Err(e) => ctx.violation("Builder", "[builder] construction fails on valid facts", json!({"family": what, "facts": f.to_json(), "observed": e})),
             }
         }
         for (ont, path) in &onts {
@@ -365,8 +376,9 @@ pub fn run(ctx: &mut Ctx) {
                     continue;
                 }
             }
-            if let Ok(o) = drive::build(&f, Mode::Defaults) {
-                onts.push((o, "builder"));
+            match drive::build(&f, Mode::Defaults) {
+                Ok(o) => onts.push((o, "builder")),
+                Err(e) => ctx.violation("Builder", "[builder] construction fails on valid facts", json!({"record_counts (gene, omim, orpha)": c, "facts": f.to_json(), "observed": e})),
             }
             for (ont, path) in &onts {
                 for mask in 0..(1u32 << n) {
@@ -401,7 +413,16 @@ pub fn run(ctx: &mut Ctx) {
             let n = ids.len();
             let ont = match drive::from_bytes(&encode::encode(f, &EncOpts::v(3))) {
                 Ok(Ok(o)) => o,
-                _ => continue,
+                // (the same refusal that family-E/all-subsets tolerates and counts; anything else - another Err,
+                // a panic - is a failure on a file laid out as documented and must not drop all sequences silently)
+                Ok(Err(_)) if what.contains("naming each other as replacement") => {
+                    ctx.bump("refused: file with two terms naming each other as replacement (histories/live-set)", 1);
+                    continue;
+                }
+                other => {
+                    ctx.violation("Ontology::from_bytes", "rejects a file laid out as documented", json!({"family": what, "facts": f.to_json(), "observed": format!("{:?}", other.map(|r| r.map(|_| ())))}));
+                    continue;
+                }
             };
             // ops: 0..n = extend(ids[i]); n = remove_obsolete; n+1 = remove_modifier; n+2 = replace_obsolete;
             // n+3 = extend(all terms, descending); n+4 = extend([t2, t2, t0]) (a repeat inside one call, one of them
@@ -694,7 +715,14 @@ pub fn run(ctx: &mut Ctx) {
         }
         // ONE ontology per fact set: the lists are edited again after they have been queried (a classification
         // remembered per term would go stale); the category pair alternates as well
-        let Ok(mut ont) = drive::build(f, Mode::Minimal) else { continue };
+        let mut ont = match drive::build(f, Mode::Minimal) {
+            Ok(o) => o,
+            Err(e) => {
+                // the only driver of modifier_mut() / categories_mut(): a failing Builder must not empty the space
+                ctx.violation("Builder", "[builder] construction fails on valid facts", json!({"family": what, "facts": f.to_json(), "mode": "build_minimal", "observed": e}));
+                continue;
+            }
+        };
         for (ri, roots) in root_sets.iter().enumerate() {
             let cats: Vec<u32> = if ri % 2 == 0 { vec![ids[n - 1], ids[1]] } else { vec![ids[0], ids[n - 2]] };
             ctx.transitions(f.n_steps() + 2);
@@ -764,4 +792,8 @@ pub fn run(ctx: &mut Ctx) {
         }
         None
     });
+    let n = IC_ERR_TOLERATED.swap(0, std::sync::atomic::Ordering::Relaxed);
+    if n > 0 {
+        ctx.bump("refused: information_content returns Err for a set with an empty union or an empty kind", n);
+    }
 }
